@@ -1104,10 +1104,8 @@ func (n *KBNode) RunCase(spec KBSpec) (*KCase, error) {
 				for _, a := range applieds {
 					if a.step > parkStart[t] && a.t != t && a.key == myKey {
 						switch n.Engine {
-						case EngBadger, EngWrapBadger:
-							env = EnvError // badger.ErrConflict: an ordinary error for the backend
-						case EngTiKV:
-							env = EnvAbort // write conflict -> storage.ErrCASFailed
+						case EngBadger, EngWrapBadger, EngTiKV:
+							env = EnvAbort // badger.ErrConflict / TiKV write conflict -> storage.ErrCASFailed
 						}
 					}
 				}
